@@ -335,3 +335,65 @@ arr[0] = 1;
 n = arr.length;
 return x;
 ''', 't')
+prog('loop_control_neighbours', '''
+i = 0;
+y = 0;
+while i < 10
+  i = i + 1;
+  if i == 3
+    y = y + 100;
+    continue;
+  end if;
+  if i == 7
+    y = y + 1;
+    break;
+  elif i == 8
+    continue;
+    y = 5;
+  else
+    y = y + 2;
+    continue;
+  end if;
+  y = y + 3;
+end while;
+select many cs from instances of Class;
+for each c in cs
+  y = y + 1;
+  break;
+  y = y + 2;
+end for;
+''')
+prog('selected_two_classes', '''
+select any a from instances of Class where (selected.ID == 1);
+select any b from instances of Other_Class where (selected.ID == 2);
+select many cs from instances of Assoc where (selected.One_ID == 1);
+select many ds from instances of Other_Class where (selected.Class_ID == 1 and selected.ID != 3);
+select any e from instances of Class where (selected.ID != 1);
+''')
+prog('deep_index', '''
+x[1][2] = 5;
+y[1][2][3] = 6;
+z = x[1][2] + y[1][2][3];
+''')
+prog('names_inside_keywords', '''
+create object instance inst of Class;
+select any a from instances of Class;
+select many man from instances of Class;
+select one o related by a->Other_Class[R2];
+for each ea in man
+  x = 1;
+end for;
+select any f from instances of Class where (selected.ID == 1);
+create object instance ob of Other_Class;
+''')
+prog('not_empty_plain', '''
+select many dogs from instances of Class;
+select any dog from instances of Class;
+if (not_empty dogs)
+  x = 1;
+end if;
+y = not_empty dog;
+z = empty dogs;
+n = cardinality dogs;
+w = not y;
+''')
